@@ -75,14 +75,31 @@ def run(R):
         c.check(len(last) >= 1 and len(returns(f)) == len(last) + 2, f, last[0].ast if last else None, 'a pattern already of the right type is returned unchanged', kind='ast', tag='passthrough')
         pvn = [n2.targets[0].id for n2 in iter_nodes(f.node) if isinstance(n2, ast.Assign) and isinstance(n2.targets[0], ast.Name) and norm(n2.value) == '%s.pattern' % rp]
         pv_ = pvn[0] if pvn else 'p'
-        conds = {}
-        for k in ks:
-            a = k.args[0]
-            if isinstance(a, ast.Call) and callee_last(a) in ('encode', 'decode'):
-                conds[callee_last(a)] = conditions(g, g.node_for(k))
-        ok = conds.get('encode') == mode_mismatch_conditions(pv_, True) and conds.get('decode') == mode_mismatch_conditions(pv_, False)
-        c.check(ok, f, ks[0], 'str pattern + bytes mode -> bytes pattern; bytes pattern + text mode -> str pattern',
-                witness=str(dict((k_, sorted(v)) for k_, v in conds.items())), kind='path', tag='directions')
+        # what is returned for each combination of object mode and pattern type, found by walking the routine under that truth
+        # assignment (flag locals such as `bytes_mode = self.encoding is None` and tests like `isinstance(p, bytes) == bytes_mode` included)
+        A_ENC = atom_key(ast.parse('self.encoding is None', mode='eval').body)[0]
+        A_BYT = atom_key(ast.parse('isinstance(%s, bytes)' % pv_, mode='eval').body)[0]
+        table = {}
+        for enc_none in (True, False):
+            for is_bytes in (True, False):
+                outs = set()
+                for path in scenario_paths(g, {A_ENC: enc_none, A_BYT: is_bytes}):
+                    last_ = [n for n in path if n.kind == 'stmt' and isinstance(n.ast, ast.Return)]
+                    if not last_:
+                        outs.add('falls off / raises')
+                        continue
+                    v_ = last_[-1].ast.value
+                    if is_name(v_, rp):
+                        outs.add('unchanged')
+                    elif isinstance(v_, ast.Call) and dotted(v_.func) == 're.compile' and v_.args and isinstance(v_.args[0], ast.Call) \
+                            and callee_last(v_.args[0]) in ('encode', 'decode'):
+                        outs.add(callee_last(v_.args[0]))
+                    else:
+                        outs.add(norm(v_)[:40] if v_ is not None else 'None')
+                table[(enc_none, is_bytes)] = sorted(outs)
+        want = {(True, True): ['unchanged'], (True, False): ['encode'], (False, True): ['decode'], (False, False): ['unchanged']}
+        c.check(table == want, f, ks[0], 'str pattern + bytes mode -> bytes pattern; bytes pattern + text mode -> str pattern; a pattern of the right type is returned unchanged',
+                witness='(bytes mode, bytes pattern) -> %s' % sorted(table.items()), kind='path', tag='directions')
     with R.clause('D4', 'ORDER', floor=6, desc='validation completes before the Expecter exists; validators never touch the stream') as c:
         check_order(c, repo)
     with R.clause('D5', 'COERCE', floor=3, desc='text for a bytes-mode object is ascii-encoded; read(n) pattern uses DOTALL') as c:
@@ -354,14 +371,43 @@ def check_flags(c, repo):
         return
     FV = ks0[0].args[1].id
     asg = [n for n in g.nodes if n.kind == 'stmt' and isinstance(n.ast, ast.Assign) and FV in assigned_names(n.ast)]
-    c.need(len(asg) == 2, 'compile_pattern_list: expected two assignments to the flags variable')
-    a0, a1 = sorted(asg, key=lambda n: n.id)
-    c.check(norm(a0.ast.value) == 're.DOTALL', f, a0.ast, 'flags start as DOTALL ("." matches newlines)', witness=norm(a0.ast), kind='alg', tag='dotall')
-    t = [x for x in g.nodes if x.kind == 'test' and norm(x.ast) == 'self.ignorecase']
-    v = a1.ast.value
-    ok = len(t) == 1 and a1 in guard_region(g, t[0], 'true') and isinstance(v, ast.BinOp) and isinstance(v.op, ast.BitOr) and \
-        sorted([norm(v.left), norm(v.right)]) == sorted([FV, 're.IGNORECASE'])
-    c.check(ok, f, a1.ast, 'IGNORECASE is OR-ed in exactly when self.ignorecase is set (DOTALL is kept)', witness=norm(a1.ast), kind='alg', tag='ignorecase')
+    c.need(len(asg) >= 1, 'compile_pattern_list: the flags variable is never assigned')
+    # the value of the flags variable where re.compile is reached, as a SET OF FLAG BITS, for self.ignorecase true and false: every
+    # path of the scenario is executed on that abstraction (re.X -> {X}, `|` -> union, a conditional expression on self.ignorecase),
+    # so it does not matter whether the flags are built by an if, a conditional expression or in two steps
+    kn0 = g.node_for(ks0[0])
+    A_IC = atom_key(ast.parse('self.ignorecase', mode='eval').body)[0]
+
+    def bits(e, cur, ic):
+        if isinstance(e, ast.Attribute) and isinstance(e.value, ast.Name) and e.value.id == 're':
+            return frozenset([e.attr])
+        if isinstance(e, ast.Name) and e.id == FV:
+            return cur
+        if isinstance(e, ast.Constant) and e.value == 0:
+            return frozenset()
+        if isinstance(e, ast.BinOp) and isinstance(e.op, ast.BitOr):
+            l_, r_ = bits(e.left, cur, ic), bits(e.right, cur, ic)
+            return None if l_ is None or r_ is None else l_ | r_
+        if isinstance(e, ast.IfExp):
+            co, lab = truth(e.test)
+            if norm(co) == 'self.ignorecase':
+                take = e.body if (ic == (lab == 'true')) else e.orelse
+                return bits(take, cur, ic)
+        return None
+    for ic in (True, False):
+        seen = set()
+        for path in scenario_paths(g, {A_IC: ic}, goal=kn0):
+            cur = None
+            for n in path[:-1]:
+                if n in asg:
+                    cur = bits(n.ast.value, cur, ic)
+                    if cur is None:
+                        raise AnalysisError('compile_pattern_list: flags expression not understood: %s' % norm(n.ast))
+            seen.add(cur)
+        want = frozenset(['DOTALL', 'IGNORECASE']) if ic else frozenset(['DOTALL'])
+        c.check(seen == {want}, f, ks0[0], 'with ignorecase %s the text patterns are compiled with %s' % ('set' if ic else 'not set', ' | '.join('re.' + x for x in sorted(want))),
+                witness='flags reaching re.compile: %s' % sorted(sorted(x) if x is not None else None for x in seen), kind='alg', tag='dotall' if not ic else 'ignorecase')
+    a0 = sorted(asg, key=lambda n: n.id)[0]
     ks = [k for k in calls_in(f.node) if dotted(k.func) == 're.compile' and not (len(k.args) == 1 and is_const(k.args[0], ''))]
     ok = len(ks) == 1 and len(ks[0].args) == 2 and is_name(ks[0].args[1], FV)
     c.check(ok, f, ks[0] if ks else None, 're.compile receives those flags', witness=norm(ks[0]) if ks else '', kind='alg', tag='flags-used')
